@@ -17,8 +17,10 @@
    What is NOT proved (see the comment at C03_judge_bridge_udp): for a TCP next hop the bridge keeps one
    premise on the observation side: when the model writes nothing on a connection, the judge must see a
    refusing peer (no listener, no open connection there).  The model can stay silent towards a listening
-   peer (a cached connection that was closed: dial, no bytes; a request with a transaction id towards the
-   source port of an accepted connection), so that premise does not follow from the agreement alone. *)
+   peer (a request with a transaction id towards the source port of an accepted connection), so that
+   premise does not follow from the agreement alone.  (A cached
+   connection that was closed no longer causes silence: since the repair of Proxy.tcp_client_send the
+   round that dials also writes, C02.C02_stale_redial.) *)
 From Coq Require Import List Ascii String ZArith NArith Bool Arith Lia.
 From Model Require Import Bytes BytesLemmas Wire Uri Hdr Message Msg Rx Glob StaticRoute RoundRobin Pins
      Proxy RunProxy SpecProxy SpecC14.
@@ -605,8 +607,9 @@ Proof. apply app_inv_head. Qed.
                  fails), no tcp key holds a UDP client (C02.tcp_slot_ok, an invariant: C02_tcp_slot_reachable);
                  the message to send fits a datagram.
    TCP next hop: when nothing is written on a connection the peer must be a refusing one for the judge
-                 (premise of the conclusion; see the report: the model can stay silent towards a listening
-                 peer when its cached connection was closed). *)
+                 (premise of the conclusion: the model can stay silent towards a listening peer, e.g. a
+                 request with a transaction id towards the source port of an accepted connection; a stale
+                 cached connection alone no longer silences it, C02.C02_stale_redial). *)
 Theorem C03_judge_bridge_udp :
   forall pc stj li lc src sport data closed jin m rest e rs x x' l,
   nth_opt (c_listens (pc_cfg pc)) li = Some lc -> e_cfg e = pc_cfg pc -> e_lc e = lc ->
@@ -970,9 +973,9 @@ Proof.
       * injection H as <- <- <- <- <-. exists [(DConn c, b)]. split; [reflexivity|symmetry; apply app_nil_r].
       * exact (IH _ _ _ _ _ _ _ _ _ _ _ _ _ _ H).
     + destruct (existsb _ (w_tcp_listeners w)).
-      * apply IH in H. destruct H as (extra & -> & ->).
-        exists ((DDial (tc_host cl) (tc_port cl) (w_next_conn w), []) :: extra).
-        rewrite <- !app_assoc. split; reflexivity.
+      * injection H as <- <- <- <- <-.
+        exists [(DDial (tc_host cl) (tc_port cl) (w_next_conn w), []); (DConn (w_next_conn w), b)].
+        split; reflexivity.
       * injection H as <- <- <- <- <-. exists []. split; symmetry; apply app_nil_r.
 Qed.
 
